@@ -51,6 +51,9 @@ pub fn strategy(with_attacker: bool) -> impl Strategy<Value = Case> {
 
 #[derive(Clone, Debug, Serialize, Deserialize)]
 pub struct RunRec {
+    /// index of this run in the case's schedule list (what only_placement names)
+    #[serde(default)]
+    pub k: usize,
     pub placements: Vec<usize>,
     pub mutations: Vec<Mutation>,
     pub out: Out,
@@ -68,6 +71,8 @@ pub struct Report {
     pub baseline_syscalls: usize,
     pub placement_points: usize,
     pub runs: Vec<RunRec>,
+    #[serde(default)]
+    pub skipped_placements: usize,
 }
 
 struct AttackState {
@@ -241,6 +246,7 @@ fn run_once(sb: &Sandbox, case: &Case, plan: Vec<(usize, Mutation)>, restore_at:
     });
     let changed_inside = changes(&before.sub(&B::new("root")), &after.sub(&B::new("root"))).len();
     let rr = RunRec {
+        k: 0,
         placements: plan.iter().map(|(i, _)| *i).collect(),
         mutations: plan.iter().map(|(_, m)| m.clone()).collect(),
         out,
@@ -260,7 +266,7 @@ pub fn child(case: &Case) -> Report {
     let trace = bcall.map(|c| c.trace).unwrap_or_default();
     let n = trace.len();
     let points: Vec<usize> = trace.iter().filter(|s| is_placement_point(s, sandbox_dev)).map(|s| s.idx).collect();
-    let mut rep = Report { baseline: base, baseline_syscalls: n, placement_points: points.len(), runs: vec![] };
+    let mut rep = Report { baseline: base, baseline_syscalls: n, placement_points: points.len(), runs: vec![], skipped_placements: 0 };
     if points.is_empty() || case.muts.is_empty() {
         sb.destroy();
         return rep;
@@ -289,13 +295,23 @@ pub fn child(case: &Case) -> Report {
         }
         schedules.push((plan, restores));
     }
+    // bounded work per case (see C02): an evenly spaced sample of at most 200 placements, 45 s
+    const MAX_PLACEMENTS: usize = 200;
+    let total = schedules.len();
+    let keep: Vec<bool> = (0..total).map(|k| total <= MAX_PLACEMENTS || (k * MAX_PLACEMENTS / total) != ((k + 1) * MAX_PLACEMENTS / total) || k < 20).collect();
+    let t0 = now_s();
     for (k, (plan, restores)) in schedules.into_iter().enumerate() {
+        if case.only_placement.is_none() && (!keep[k] || now_s() - t0 > 45.0) {
+            rep.skipped_placements += 1;
+            continue;
+        }
         if let Some(only) = case.only_placement {
             if only != k {
                 continue;
             }
         }
-        let (rr, _, _, _) = run_once(&sb, case, plan, restores, false);
+        let (mut rr, _, _, _) = run_once(&sb, case, plan, restores, false);
+        rr.k = k;
         rep.runs.push(rr);
     }
     sb.destroy();
@@ -356,7 +372,8 @@ pub fn judge(case: &Case, rep: &Report, stats: &mut Stats) -> Result<(), Fail> {
     stats.class(&format!("op:{}", case.op.name()));
     let classes = arg_class(&case.op);
     let escaping_links = case.tree.entries.iter().any(|(_, n)| matches!(n, Node::Symlink { body } if body.0.starts_with(b"..") || body.0.starts_with(OUT_TOKEN) || body.0.starts_with(b"/..")));
-    let all_runs: Vec<(Option<usize>, &RunRec)> = std::iter::once((None, &rep.baseline)).chain(rep.runs.iter().enumerate().map(|(k, r)| (Some(k), r))).collect();
+    stats.count("placements_skipped_by_work_bound", rep.skipped_placements as u64);
+    let all_runs: Vec<(Option<usize>, &RunRec)> = std::iter::once((None, &rep.baseline)).chain(rep.runs.iter().map(|r| (Some(r.k), r))).collect();
     for (k, r) in all_runs {
         stats.eval();
         stats.class(&format!("outcome:{}", r.out.class()));
